@@ -264,3 +264,64 @@ def check_live_hypotheses(sim, circuit, strip_forks):
                 out.append(('A4:no-clobber', f'the result of op {k} (node without output line) lands on the location of live slot {x}'))
                 return out
     return out
+
+
+def spec_stems(circuit, strip_forks):
+    """branch line index -> stem line index, computed independently of sim.py (walk back through driving forks with an input)"""
+    stem = {}
+    if strip_forks:
+        for f in circuit.forks.values():
+            l = f.ins[0] if len(f.ins) > 0 else None
+            while l is not None and l.driver.kind == '__fork__' and len(l.driver.ins) > 0 and l.driver.ins[0] is not None:
+                l = l.driver.ins[0]
+            if l is None:
+                continue
+            for ol in f.outs:
+                if ol is not None:
+                    stem[ol.index] = l.index
+    return stem
+
+
+def check_phase_requires(sim, circuit, strip_forks):
+    """the *requires* of the levelisation / allocation phase contracts (contracts.simops_c, contracts.alloc_c) that the translation
+    phase of SimOps.__init__ has to establish, evaluated on a real instance: the assume/guarantee chain between the tier-P phases and
+    the bounded translation is closed here"""
+    out = []
+    ops = np.asarray(sim.ops)
+    nlines, n = len(circuit.lines), len(ops)
+    zero, tmp, tmp2, ppi, ppo, nlocs = sim.zero_idx, sim.tmp_idx, sim.tmp2_idx, sim.ppi_offset, sim.ppo_offset, sim.c_locs_len
+    if not (zero == nlines and tmp == nlines + 1 and tmp2 == nlines + 2 and ppi == nlines + 3 and ppo == ppi + sim.s_len and nlocs == ppo + sim.s_len):
+        out.append(('REQ:slot-layout', f'special slot layout {zero, tmp, tmp2, ppi, ppo, nlocs} for {nlines} lines, {sim.s_len} interface nodes'))
+        return out
+    stem = spec_stems(circuit, strip_forks)
+    res = lambda x: stem.get(x, x)
+    prod = {}
+    for k, op in enumerate(ops):
+        o = int(op[1])
+        if not (0 <= o < nlines or o == tmp):
+            out.append(('REQ:output-is-line-or-tmp', f'op {k} writes slot {o}'))
+        if o != tmp:
+            if o in prod:
+                out.append(('REQ:single-production', f'slot {o} written by ops {prod[o]} and {k}'))
+            prod[o] = k
+    s_nodes = list(circuit.s_nodes)
+    for k, op in enumerate(ops):
+        for x in op[2:6]:
+            x = int(x)
+            if not 0 <= x < nlocs:
+                out.append(('REQ:operand-in-range', f'op {k} reads slot {x}'))
+                continue
+            x = res(x)
+            if x in (tmp, tmp2) or x >= ppo:
+                out.append(('REQ:operand-not-scratch-or-output-slot', f'op {k} reads slot {x}'))
+            if x in prod:
+                if prod[x] >= k:
+                    out.append(('REQ:TopoOps', f'op {k} reads slot {x} produced by op {prod[x]}'))
+            elif not (x == zero or (ppi <= x < ppo and len(s_nodes[x - ppi].outs) > 0)):
+                out.append(('REQ:source-is-preallocated', f'op {k} reads slot {x} that no op produces and that is neither the zero slot nor an interface input with outputs'))
+    for b, s_ in stem.items():
+        if b in prod:
+            out.append(('REQ:stripped-branch-has-no-producer', f'branch {b} (stem {s_}) is written by op {prod[b]}'))
+        if s_ in stem:
+            out.append(('REQ:stem-of-stem', f'stem {s_} of branch {b} is itself a stripped branch'))
+    return out[:5]
